@@ -148,6 +148,23 @@ def _rich_openapi(k):
     return {"openapi": "3.0.0", "info": {"title": "verif", "version": "1"}, "paths": {}, "components": {"schemas": schemas}}
 
 
+def _xlang_jsonschema():
+    """shapes that language-specific passes rewrite IN PLACE through pointers held by a
+    disjunction branch (array of anonymous structs, inline struct with a `T | null` field, map of
+    anonymous structs): the languages run different pass chains on what must be separate deep
+    copies of the loaded schemas, and Pipeline.Run ranges over the language map"""
+    anon = {"type": "object", "additionalProperties": False, "required": ["expr"], "properties": {"expr": {"type": "string"}, "step": {"type": "integer"}}}
+    nullable = {"type": "object", "additionalProperties": False, "required": ["name"],
+                "properties": {"name": {"type": "string"}, "opt": {"oneOf": [{"type": "string"}, {"type": "null"}]}}}
+    return {"$schema": "http://json-schema.org/draft-07/schema#", "$ref": "#/definitions/Query", "definitions": {
+        "Query": {"type": "object", "additionalProperties": False, "required": ["target"], "properties": {
+            "target": {"oneOf": [{"type": "string"}, {"type": "array", "items": anon}]},
+            "alt": {"oneOf": [{"type": "string"}, nullable]},
+            "many": {"type": "array", "items": {"oneOf": [{"type": "integer"}, {"type": "array", "items": anon}]}},
+            "byName": {"type": "object", "additionalProperties": {"oneOf": [{"type": "boolean"}, {"type": "array", "items": nullable}]}},
+        }}}}
+
+
 def _write(path, text):
     os.makedirs(os.path.dirname(path), exist_ok=True)
     with open(path, "w", encoding="utf-8") as fh:
@@ -171,6 +188,7 @@ def write_pipelines(root, k=3):
     d = os.path.join(root, "clean")
     _write(os.path.join(d, "rich.json"), json.dumps(_rich_jsonschema(k), indent=1))
     _write(os.path.join(d, "api.json"), json.dumps(_rich_openapi(k), indent=1))
+    _write(os.path.join(d, "xlang.json"), json.dumps(_xlang_jsonschema(), indent=1))
     _write(os.path.join(d, "passes.yaml"), """passes:
   - hint_object:
       object: rich.Root
@@ -179,6 +197,14 @@ def write_pipelines(root, k=3):
       defaults:
         rich.Root.n_a: 3
         rich.DefA.w_a: 1.5
+        # the same field referred to with different casings and different values (references
+        # are matched case-insensitively; which one wins must not depend on map order)
+        rich.Root.s_b: 'first'
+        rich.root.S_B: 'second'
+        rich.ROOT.s_B: 'third'
+  - hint_object:
+      object: rich.DefB
+      hints: {Mode: 1, mode: 2, MODE: 3}
 """)
     _write(os.path.join(d, "veneers", "rich.yaml"), """language: all
 package: rich
@@ -235,6 +261,9 @@ inputs:
   - openapi:
       path: '%%base%%/api.json'
       package: api
+  - jsonschema:
+      path: '%%base%%/xlang.json'
+      package: xlang
   - openapi:
       path: '%s/testdata/openapi/refs/schema.json'
       package: oarefs
@@ -271,6 +300,25 @@ output:
                         "modes": ["files"], "site": "-", "expect": "deterministic"})
     body = open(clean).read().replace("  builders: true\n", "").replace("  converters: true\n", "").replace("  api_reference: true\n", "")
     recipes.append({"name": "clean-types-only", "cfg": cfg("clean-types-only", body), "modes": ["files"], "site": "-", "expect": "deterministic"})
+
+    # ---- two languages with different pass chains over schemas whose disjunction branches are
+    #      rewritten in place by one of them (isolation of the per-language copies)
+    d = os.path.join(root, "xlang")
+    _write(os.path.join(d, "xlang.json"), json.dumps(_xlang_jsonschema(), indent=1))
+    blocks = {b.split(":")[0]: b for b in ALL_LANGUAGES.split("    - ") if b.strip()}
+    for pair in (("go", "typescript"), ("typescript", "java"), ("python", "typescript", "php"), ("jsonschema", "go", "openapi")):
+        name = "xlang-" + "-".join(pair)
+        recipes.append({"name": name, "expect": "deterministic", "site": "internal/codegen/run.go:Pipeline.Run", "modes": ["files"],
+                        "cfg": cfg(name, """inputs:
+  - jsonschema:
+      path: '%s/xlang.json'
+      package: xlang
+output:
+  directory: 'out/%%l'
+  types: true
+  builders: true
+  languages:
+%s""" % (d, "".join("    - " + blocks[l] for l in pair)))})
 
     # ---- repaired site (regression recipe): two candidate discriminator fields
     d = os.path.join(root, "fixed-infer")
@@ -497,6 +545,51 @@ output:
   api_reference: true
   languages:
 %s""" % (d, ALL_LANGUAGES))})
+    # ---- veneers whose configuration holds Go maps: merge_into with chained / swapped /
+    #      case-overlapping rename_options (a rename's target is another rename's source)
+    d = os.path.join(root, "veneer-maps")
+    _write(os.path.join(d, "s.json"), json.dumps({
+        "$schema": "http://json-schema.org/draft-07/schema#", "$ref": "#/definitions/Panel",
+        "definitions": {
+            "Panel": {"type": "object", "additionalProperties": False, "required": ["id", "options"],
+                      "properties": {"id": {"type": "integer"}, "options": {"$ref": "#/definitions/Options"}}},
+            "Options": {"type": "object", "additionalProperties": False, "required": ["name", "title"],
+                        "properties": {"name": {"type": "string"}, "title": {"type": "string"}, "min": {"type": "integer"},
+                                       "max": {"type": "integer"}, "unit": {"type": "string"}}},
+        }}, indent=1))
+    _write(os.path.join(d, "veneers", "v.yaml"), """language: all
+package: vmaps
+builders:
+  - merge_into:
+      destination: Panel
+      source: Options
+      under_path: options
+      rename_options:
+        title: label
+        name: title
+        min: max
+        max: min
+        Unit: unitUpper
+        unit: unitLower
+""")
+    recipes.append({"name": "veneer-maps", "expect": "deterministic", "site": "-", "modes": ["files", "context:typescript+canon"],
+                    "cfg": cfg("veneer-maps", """inputs:
+  - jsonschema:
+      path: '%s/s.json'
+      package: vmaps
+transformations:
+  builders:
+    - '%s/veneers'
+output:
+  directory: 'out/%%l'
+  types: true
+  builders: true
+  languages:
+    - typescript: {}
+    - go:
+        package_root: 'example.com/gen'
+    - python: {}
+""" % (d, d))})
     return recipes
 
 
